@@ -550,8 +550,12 @@ func (t *wal) TruncateLog(lastSafeOffset int64) (int64, error) { //nolint:revive
 					return InvalidOffset, err
 				}
 
-				err = segment.Close()
-				return lastSafeOffset, err
+				if err = segment.Close(); err != nil {
+					return InvalidOffset, err
+				}
+				t.lastAppendedOffset.Store(lastSafeOffset)
+				t.lastSyncedOffset.Store(lastSafeOffset)
+				return lastSafeOffset, nil
 			default:
 				// The entire segment can be discarded
 				if err := segment.Get().Delete(); err != nil {
